@@ -1,3 +1,6 @@
 import GoRedisModel.Properties.C11
 open GoRedis
-#print axioms C11_placeholder
+#print axioms C11_prefix_is_error
+#print axioms C11_prefix_is_error_chunked
+#print axioms C11_partial_request_not_executed
+#print axioms C11_released
